@@ -571,7 +571,12 @@ func writeStats() {
 	sort.Slice(o.Known, func(i, j int) bool { return o.Known[i].Key < o.Known[j].Key })
 	b, _ := json.Marshal(o)
 	os.MkdirAll(outDir, 0o755)
-	os.WriteFile(filepath.Join(outDir, fmt.Sprintf("stats-%d.json", shard)), b, 0o644)
+	name := fmt.Sprintf("stats-%d.json", shard)
+	if os.Getenv("VERIF_FUZZ") != "" {
+		// fuzz coordinator and workers are separate processes running this binary
+		name = fmt.Sprintf("stats-fuzz-%d.json", os.Getpid())
+	}
+	os.WriteFile(filepath.Join(outDir, name), b, 0o644)
 }
 
 // ---------------------------------------------------------------- watchdog
@@ -636,5 +641,33 @@ func (w *Watchdog) loop() {
 		fmt.Fprintf(os.Stderr, "VERIF-VIOLATION property=%s sub=%s key=%s replay=%s\n", Property, w.sub, w.sub+"/hang", file)
 		writeStats()
 		os.Exit(1)
+	}
+}
+
+// ---------------------------------------------------------------- native fuzzing
+
+// FuzzBytes registers a native go fuzz target over byte strings: the semantic
+// oracle runs inside the target. seeds populate the corpus. It only does real
+// work in the thorough tier, where the driver runs the instrumented binary
+// with -test.fuzz.
+func FuzzBytes(f *testing.F, seeds [][]byte, eval func(b []byte) error, observe func(b []byte)) {
+	for _, s := range seeds {
+		f.Add(s)
+	}
+	f.Fuzz(func(t *testing.T, b []byte) {
+		if observe != nil {
+			observe(b)
+		}
+		if err := eval(append([]byte{}, b...)); err != nil {
+			t.Fatal(err)
+		}
+	})
+}
+
+// OnlyFirstShard skips deterministic tables and enumerations that are not split
+// over the shards, so that they are counted once in the merged evidence.
+func OnlyFirstShard(t *testing.T) {
+	if Shard() != 0 {
+		t.Skip("deterministic enumeration: runs in shard 0 only")
 	}
 }
